@@ -253,15 +253,15 @@ class C20Emulsion(Harness):
         env.observe("n", len(em))
 
 
-TC_OPS = ["append_t", "append_auto", "clear", "slice", "construct_from", "construct_lists", "getitem"]
+TC_OPS = ["append_t", "append_auto", "clear", "slice", "construct_from", "construct_lists", "getitem", "append_list"]
 
 
 class C20TimeCourse(Harness):
     name = "C20TimeCourse"
     prop = "C20"
-    bounds = ("EmulsionTimeCourse under every sequence of 3 operations out of 7 (append with / without time, clear, slice, "
+    bounds = ("EmulsionTimeCourse under every sequence of 3 operations out of 8 (append with / without time, clear, slice, "
               "construction from another course followed by an append to the copy, construction from caller lists, item "
-              "access) starting from 2 frames; times and droplet parameters symbolic; times/emulsions stay paired; copies "
+              "access, frames given as plain list / generator of droplets) starting from 2 frames; times and droplet parameters symbolic; times/emulsions stay paired; copies "
               "independent of their source; nearest-time lookup")
     stubs = C20Emulsion.stubs
     cost = 3
@@ -316,6 +316,16 @@ class C20TimeCourse(Harness):
                 etc.append(e)
                 MT = MT + [(MT[-1] + 1) if MT else 0]
                 ME = ME + [[vals(env, d) for d in e]]
+            elif op == "append_list":
+                # a frame handed over as a plain list of droplets (and the same droplet in two frames)
+                d, t, t2 = pool.new(), newt(), newt()
+                etc.append([d], t)
+                etc.append((x for x in [d]), t2)
+                MT, ME = MT + [t, t2], ME + [[vals(env, d)], [vals(env, d)]]
+                d.radius = env.real(f"n{step + 1}r", 0, 2)      # the caller's droplet changes afterwards
+                self.check(env, tag + " (caller's droplet changed)", etc, MT, ME)
+                etc.emulsions[-1][0].radius = env.real(f"n{step + 4}r", 0, 2)   # and the stored one of the last frame
+                ME[-1] = [vals(env, etc.emulsions[-1][0])]
             elif op == "clear":
                 etc.clear()
                 MT, ME = [], []
@@ -475,4 +485,78 @@ class C20Track(Harness):
         env.observe("n", len(tr))
 
 
-HARNESSES = [C20Emulsion, C20TimeCourse, C20Track]
+LAYOUTS = [("SphericalDroplet", 1, 0), ("SphericalDroplet", 2, 0), ("SphericalDroplet", 3, 0),
+           ("DiffuseDroplet", 1, 0), ("DiffuseDroplet", 2, 0), ("DiffuseDroplet", 3, 0),
+           ("PerturbedDroplet2D", 2, 1), ("PerturbedDroplet2D", 2, 2), ("PerturbedDroplet2D", 2, 3),
+           ("PerturbedDroplet3D", 3, 1), ("PerturbedDroplet3D", 3, 3), ("PerturbedDroplet3DAxisSym", 3, 1),
+           ("PerturbedDroplet3DAxisSym", 3, 2)]
+
+
+def layout_fields(cls, dim, modes):
+    """the harness's own description of a data layout: (field name, length) pairs"""
+    f = [("position", dim), ("radius", 1)]
+    if cls != "SphericalDroplet":
+        f.append(("interface_width", 1))
+    if cls.startswith("Perturbed"):
+        f.append(("amplitudes", modes))
+    return tuple(f)
+
+
+class C20Consistency(Harness):
+    name = "C20Consistency"
+    prop = "C20"
+    bounds = ("every ordered pair of 13 droplet layouts (spherical / diffuse in 1-3 dimensions, perturbed 2D with 1-3, 3D with "
+              "1 / 3, axisymmetric with 1 / 2 amplitudes; parameters symbolic): adding the second to a collection holding the "
+              "first with force_consistency=True (append, extend, constructor, typed empty emulsion) raises ValueError "
+              "exactly when dimension or data layout (fields and their lengths) differ, and otherwise stores an equal copy")
+    stubs = C20Emulsion.stubs
+    cost = 1
+    exact_validation = False
+
+    def configs(self, tier):
+        return [dict(a=i, b=j) for i in range(len(LAYOUTS)) for j in range(len(LAYOUTS))]
+
+    def sample(self, cfg, rng):
+        return {k: F(rng.randint(1, 900), 1000) for k in ("ar", "br", "bw", "ba0", "ba1", "ba2")}
+
+    def make(self, env, spec, tag):
+        cls, dim, modes = spec
+        r = env.real(f"{tag}r", 0, 2)
+        pos = [0] * dim
+        C = getattr(env.D, cls)
+        if cls == "SphericalDroplet":
+            return C(pos, r)
+        w = env.real(f"{tag}w", 0, 1) if tag == "b" else F(1, 2) if env.mode != "float" else 0.5
+        if cls == "DiffuseDroplet":
+            return C(pos, r, w)
+        amps = [env.real(f"{tag}a{k}", F(-1, 2), F(1, 2)) if tag == "b" else 0 for k in range(modes)]
+        return C(pos, r, w, amps)
+
+    def body(self, env, cfg):
+        sa, sb = LAYOUTS[cfg["a"]], LAYOUTS[cfg["b"]]
+        a, b = self.make(env, sa, "a"), self.make(env, sb, "b")
+        same = layout_fields(*sa) == layout_fields(*sb)
+        ways = {
+            "append": lambda: (lambda em: (em.append(b, force_consistency=True), em)[1])(env.E.Emulsion([a])),
+            "extend": lambda: (lambda em: (em.extend([b], force_consistency=True), em)[1])(env.E.Emulsion([a])),
+            "constructor": lambda: env.E.Emulsion([a, b], force_consistency=True),
+            "typed empty emulsion": lambda: (lambda em: (em.append(b, force_consistency=True), em)[1])(env.E.Emulsion.empty(a)),
+        }
+        for name, fn in ways.items():
+            if not same:
+                env.expect_raises(f"{name}: a droplet of another dimension or data layout is rejected when consistency is "
+                                  "requested", (ValueError,), fn)
+                continue
+            em = fn()
+            n = 1 if name == "typed empty emulsion" else 2
+            env.prove(f"{name}: a droplet of the same layout is accepted", len(em) == n)
+            got = em[-1]
+            ok = type(got).__name__ == sb[0] and bool(env.eq(got.radius, b.radius)) and not env.same_object(got, b)
+            if sb[0] != "SphericalDroplet":
+                ok = ok and bool(env.eq(got.interface_width, b.interface_width))
+            if sb[2]:
+                ok = ok and len(got.amplitudes) == sb[2] and all(bool(env.eq(x, y)) for x, y in zip(got.amplitudes, b.amplitudes))
+            env.prove(f"{name}: the stored droplet is an equal copy", ok)
+
+
+HARNESSES = [C20Emulsion, C20TimeCourse, C20Track, C20Consistency]
